@@ -88,7 +88,10 @@ def dag_grammars(rnd, n):
             body = items[0] if len(items) == 1 else (rnd.choice(["seq", "alt"]), items)
             defs.append((nm, "", body))
         rnd.shuffle(defs)
-        out.append(([("seq", [R(names[0]), L("end")])], defs))
+        if rnd.random() < 0.5:
+            out.append(([("seq", [R(names[0]), L("end")])], defs))
+        else:       # two entry points that share descendants
+            out.append(([("alt", [("seq", [L("move"), R(names[0])]), ("seq", [L("start"), R(names[1])])])], defs))
     return out
 
 
